@@ -112,24 +112,49 @@ def run(fx, chk, tier):
     # ---------------- R2
     fm = fx.impl_fn("Mp4Reader<R>", None, "metadata")
     if chk.anchor("R2", "Mp4Reader::metadata", fm):
-        d = hirq.dump(hirq.body_root(fm))
-        ok = "self.moov.udta" in d and ".meta" in d
-        m = None
-        for n, _ in hirq.walk(hirq.body_root(fm)):
-            if n.get("k") == "match" and n.get("src") == "match":
-                m = n
-        arms_ok = False
-        if m is not None:
-            t = tables.match_table(fx, m)
-            mdir = [x for x in t if x[0][0] == "variant" and last(x[0][1]) == "Mdir"]
-            others = [x for x in t if not (x[0][0] == "variant" and last(x[0][1]) == "Mdir")]
-            if len(mdir) == 1 and others:
-                body = hirq.dump(mdir[0][2]["body"])
-                arms_ok = body.startswith("ilst") and all(x[1][0] == "variant" and last(x[1][1]) == "None" for x in others)
-        chk.require(ok and arms_ok, "R2", "selection", "moov.udta -> meta -> Mdir{ilst} => ilst, _ => None", "metadata() does not select moov.udta.meta(mdir).ilst with None on the other paths: %s" % d[:200], site_of(fm))
-        # absence paths: and_then chains on Option (None propagates)
-        chains = [n for n, _ in hirq.walk(hirq.body_root(fm)) if n.get("k") == "mcall" and n["m"] == "and_then"]
-        chk.require(len(chains) == 2, "R2", "absence", "two Option::and_then steps (no udta / no meta => None)", "metadata() does not propagate absence of udta / meta through Option::and_then", site_of(fm))
+        # Structural facts over the function and the closures it passes to Option combinators (shape-independent):
+        #   selection: it reads moov.udta, udta.meta and the `ilst` field of the Mdir variant, and of no other variant;
+        #   absence:   it never unwraps (None of udta / meta / other handler propagates to the caller as None).
+        from callgraph import callgraph as _cgf
+        import c09
+        from mir import body_of as _body_of, strip_generics as _sg
+        cg_ = _cgf(fx)
+        clo_ = [f2 for f2 in cg_.closure([fm["id"]]) if f2 == fm["id"] or f2.startswith(fm["id"] + "::")]
+        fr_ = set()
+        for f2 in clo_:
+            fr_ |= c09.fields_read(fx, cg_, f2)
+        variants = set()
+        unwraps = []
+        for f2 in clo_:
+            b_ = _body_of(fx.fns[f2])
+            if b_ is None:
+                continue
+            for blk in b_.reach:
+                places = []
+                for s_ in b_.stmts(blk):
+                    if s_["k"] == "assign":
+                        places.append(s_["place"])
+                        rv = s_["rv"]
+                        if "place" in rv:
+                            places.append(rv["place"])
+                        for key_ in ("a", "b"):
+                            o = rv.get(key_)
+                            if isinstance(o, dict):
+                                pl = o.get("copy") or o.get("move")
+                                if pl:
+                                    places.append(pl)
+                for pl in places:
+                    for pj in pl["p"]:
+                        if isinstance(pj, dict) and "downcast" in pj and pj["downcast"] not in ("Some", "None", "Ok", "Err", "Continue", "Break"):
+                            variants.add(pj["downcast"])
+                t_ = b_.term(blk)
+                if t_["k"] == "call" and _sg(t_["callee"].get("path") or "").split("::")[-1] in ("unwrap", "expect", "unwrap_unchecked"):
+                    unwraps.append(f2)
+        need = {"MoovBox.udta", "UdtaBox.meta", "MetaBox.ilst"}
+        chk.require(need <= fr_ and variants == {"Mdir"}, "R2", "selection", "reads moov.udta -> udta.meta -> Mdir{ilst}; no other meta variant is opened",
+                    "metadata() does not select moov.udta.meta(mdir).ilst only: reads %s, opens variants %s" % (sorted(x for x in fr_ if x.split(".")[0] in ("MoovBox", "UdtaBox", "MetaBox")), sorted(variants)), site_of(fm))
+        chk.require(not unwraps, "R2", "absence", "never unwraps: absence of udta / meta / the mdir variant propagates to the caller as the empty value",
+                    "metadata() unwraps an optional box (in %s): a movie without that box panics instead of reporting absence" % [fn_.split("::")[-1] for fn_ in unwraps], site_of(fm))
 
     # ---------------- R3
     mr = fx.impl_fn("MetaBox", "ReadBox<&mut R>", "read_box")
